@@ -6,10 +6,10 @@ CONSTANTS
   Wipes = {256, 119}
   Variants = {"asis", "fixed"}
   Cuts = FALSE
-  Kinds = {"T2", "T1S", "T512"}
-  Sizes = {3}
+  Kinds = {"T2", "T1S", "T1D", "T512"}
+  Sizes = {1, 3}
   Pads = {0, 1, 2, 3}
-  Props = {0}
+  Props = {113}
   CtlFroms = {2, 3, 4, 6, 11, 22}
   MemSizes = {1, 3, 0}
   LockBits = {1, 9, 12}
